@@ -80,6 +80,9 @@ ELEM g_old_k;      /* content of slot g_k of the object under test before the ca
 /* a slot of a possibly moved-from container: constructed objects (LIVE or MOVED-from) below m_size, RAW from m_size on */
 #define SV_SLOT_VALID(v, k) ((k) >= CAP || ((k) < (v)->m_size ? (ELEM_ST(&(v)->_data[k]) == ELEM_LIVE || ELEM_ST(&(v)->_data[k]) == ELEM_MOVED) \
                                                             : ELEM_ST(&(v)->_data[k]) == ELEM_RAW))
+/* loop invariant of a loop `for (pos = 0; pos < m_size; ++pos) destroy(_data[pos])` (the destructor; clear() once it destroys
+ * its elements), for an arbitrary slot j: destroyed prefix RAW, the rest as in a valid (possibly moved-from) container */
+#define SPEC_CLR(j) ((j) >= CAP || ((j) < pos ? ELEM_ST(&self->_data[j]) == ELEM_RAW : SV_SLOT_VALID(self, j)))
 #define C14_IMP(a, b) (!(a) || (b))
 #define C14_MIN(a, b) ((a) < (b) ? (a) : (b))
 
